@@ -60,6 +60,12 @@ pub(crate) fn dispatch(a: &[String]) -> Option<String> {
                 _ => "BAD-N".to_string(),
             })
         }
+        // params <512|1024>: the parameter set as the library defines it
+        "params" => {
+            let v = if a[1] == "512" { FalconVariant::Falcon512 } else { FalconVariant::Falcon1024 };
+            let p = v.parameters();
+            Some(format!("{} {:e} {:e} {} {}", p.n, p.sigma, p.sigmin, p.sig_bound, p.sig_bytelen))
+        }
         // field_roundtrip <width> <int>: serialize then deserialize one secret-key field
         "field_decode" => {
             let bits: Vec<bool> = a[1].chars().map(|c| c == '1').collect();
